@@ -92,11 +92,11 @@ func census(self uint64) (busy []string, relevant int) {
 // ---------------------------------------------------------------- engine
 
 type gate struct {
-	id   int
-	desc string
-	inc  int
-	ch   chan string
-	kind string // store | act
+	id     int
+	desc   string
+	inc    int
+	ch     chan string
+	kind   string // store | act
 	origin int
 }
 
@@ -143,8 +143,8 @@ type Engine struct {
 	hung        bool
 	foreignDiff string
 	panicked    []string
-	alive    int // action phases currently executing in the live incarnation
-	aliveInc int
+	alive       int // action phases currently executing in the live incarnation
+	aliveInc    int
 }
 
 var errInjected = errors.New("injected store failure")
@@ -284,7 +284,9 @@ func (e *Engine) liveGates() []*gate {
 			out = append(out, g)
 		}
 	}
-	sort.Slice(out, func(i, j int) bool { return out[i].desc < out[j].desc || out[i].desc == out[j].desc && out[i].id < out[j].id })
+	sort.Slice(out, func(i, j int) bool {
+		return out[i].desc < out[j].desc || out[i].desc == out[j].desc && out[i].id < out[j].id
+	})
 	return out
 }
 
@@ -460,6 +462,16 @@ func (j *jstore) BatchCreatTaskIns(ts []*entity.TaskInstance) error {
 	nm := j.e.nm
 	e := j.e
 	failAt := -1
+	if e.scen != nil && len(e.scen.twinSpecs) > 0 {
+		// the parameters each record is created with (C05: the instance's variable values substituted)
+		for _, t := range ts {
+			var pt interface{}
+			if len(t.Params) > 0 {
+				pt = t.Params
+			}
+			e.log(L(I(36), I(nm.Id(t.ID)), I(nm.Id(t.TaskID)), I(nm.Id(t.DagInsID)), treeSx(pt)), "D record params "+t.TaskID)
+		}
+	}
 	return j.callOp(fmt.Sprintf("BatchCreatTaskIns:%d", len(ts)), func() Sx {
 		enc := sxList{}
 		for _, t := range ts {
@@ -652,7 +664,7 @@ func (j *jstore) ListTaskInstance(in *mod.ListTaskInstanceInput) ([]*entity.Task
 	return out, nil
 }
 
-func (j *jstore) Marshal(obj interface{}) ([]byte, error)    { return j.real.Marshal(obj) }
+func (j *jstore) Marshal(obj interface{}) ([]byte, error)   { return j.real.Marshal(obj) }
 func (j *jstore) Unmarshal(b []byte, ptr interface{}) error { return j.real.Unmarshal(b, ptr) }
 
 // reasonCode: fixed codes of the reason classes (0 none, 1 watchdog, 2 success-after-canceled, 3 parent-cancel, 4 other)
@@ -778,8 +790,12 @@ func (a *scriptAct) Run(ctx run.ExecuteContext, p interface{}) error { return a.
 // scriptActFull additionally has before / after / retry hooks.
 type scriptActFull struct{ scriptAct }
 
-func (a *scriptActFull) RunBefore(ctx run.ExecuteContext, p interface{}) error { return a.phase(ctx, "before") }
-func (a *scriptActFull) RunAfter(ctx run.ExecuteContext, p interface{}) error  { return a.phase(ctx, "after") }
+func (a *scriptActFull) RunBefore(ctx run.ExecuteContext, p interface{}) error {
+	return a.phase(ctx, "before")
+}
+func (a *scriptActFull) RunAfter(ctx run.ExecuteContext, p interface{}) error {
+	return a.phase(ctx, "after")
+}
 func (a *scriptActFull) RetryBefore(ctx run.ExecuteContext, p interface{}) error {
 	return a.phase(ctx, "retry")
 }
